@@ -20,7 +20,17 @@ def main():
         for step in hist:
             dev = devs[step["dev"]]
             b0 = step["b0"]
-            dev.fill = lambda cmd, b0=b0: bytes([b0]) + bytes(95)
+            rest = bytes(95)
+            kind = step.get("rest")
+            if kind == "ff":
+                rest = b"\xff" * 95
+            elif kind == "hi":
+                rest = bytes((0x80 + i) & 0xFF for i in range(95))
+            elif isinstance(kind, int):           # pseudo-random bytes from this seed: the rest of the INQUIRY data is arbitrary
+                import random
+                rr = random.Random(kind)
+                rest = bytes(rr.randrange(256) for _ in range(95))
+            dev.fill = lambda cmd, b0=b0, rest=rest: bytes([b0]) + rest
             n0 = len(dev.log)
             try:
                 if facade is None or step["new_facade"]:
